@@ -1,7 +1,10 @@
 #!/usr/bin/env python3
-"""keepmut.py <id> <m> <caught-by-comma-list> <missed-by-comma-list>: copies a confirmed seeded change from /tmp/mut into /verif/seeded."""
-import sys, os, shutil, json, re, subprocess
+"""keepmut.py <prop> <m> <caught-by-comma-list> <missed-by-comma-list> [history]
+Copies a confirmed seeded change from /tmp/mut/out-<prop>/<m> into /verif/seeded/<prop>-<m>
+(patch.diff, demo/, NOTES.md) and writes meta.json."""
+import sys, os, shutil, json, re
 id, m, caught, missed = sys.argv[1], sys.argv[2], sys.argv[3], sys.argv[4]
+history = sys.argv[5] if len(sys.argv) > 5 else ""
 src = "/tmp/mut/out-%s/%s" % (id, m)
 dst = "/verif/seeded/%s-%s" % (id, m)
 if os.path.exists(dst): shutil.rmtree(dst)
@@ -11,27 +14,28 @@ shutil.copytree(src + "/demo", dst + "/demo")
 notes = open(src + "/NOTES.md").read()
 shutil.copy(src + "/NOTES.md", dst + "/NOTES.md")
 conf = ""
-for line in open("/tmp/mut/confirm1.out") if os.path.exists("/tmp/mut/confirm1.out") else []:
-    if line.startswith("%s/%s:" % (id, m)): conf = line.strip()
-for f in ["/tmp/mut/confirm2.out", "/tmp/mut/confirm3.out"]:
-    if os.path.exists(f):
-        for line in open(f):
-            if line.startswith("%s/%s:" % (id, m)): conf = line.strip()
+if os.path.exists("/tmp/mut/confirm.out"):
+    for line in open("/tmp/mut/confirm.out"):
+        if line.startswith("/tmp/mut/out-%s/%s:" % (id, m)): conf = line.strip().split(": ", 1)[1]
 files = sorted(set(re.findall(r'^\+\+\+ b/(\S+)', open(src + "/patch.diff").read(), re.M)))
-paras = [p.strip() for p in notes.split("\n\n") if p.strip()]
+def section(title):
+    mm = re.search(r'^##+\s*' + title + r'.*?\n(.*?)(?=^##+\s|\Z)', notes, re.M | re.S | re.I)
+    return " ".join(mm.group(1).split())[:900] if mm else ""
 meta = {
     "id": "%s-%s" % (id, m),
     "breaks_property": id,
     "files_changed": files,
-    "summary": " ".join(paras[1].split())[:700] if len(paras) > 1 else "",
-    "needs_to_manifest": "see NOTES.md (written by the author of the change, who saw only the property text)",
+    "summary": section("The change"),
+    "needs_to_manifest": section("What it needs") or "see NOTES.md (written by the author of the change, who saw only the property text)",
+    "author": "fresh sub-agent given only the property text and its own scratch worktree of /repo",
     "confirmed": {
-        "how": "scratch worktree of /repo at the commit the patch was written against: git apply patch.diff; go build ./...; go test -vet=off -count=1 ./... in / and /internal/tests (only the baseline failure TestPanicRecovered may fail); demo/run.sh <worktree> with and without the patch",
+        "how": "tools/confirmmut.sh: fresh scratch worktree of /repo HEAD; demo/run.sh passes on the clean tree; git apply patch.diff; go build ./... in both modules; go test -vet=off -count=1 ./... in / and /internal/tests (only the baseline failure TestPanicRecovered may fail); demo/run.sh fails with the patch",
         "result": conf,
     },
-    "checks_run": "tools/trymut.sh patch.diff <props> (applies to /repo, runs bin/vcheck <prop> quick, restores /repo)",
+    "checks_run": "tools/trymut.sh patch.diff <props> (scratch worktree of /repo with the patch, VERIF_REPO pointing at it, bin/vcheck <prop> --tier quick)",
     "caught_by": [c for c in caught.split(",") if c],
     "missed_by": [c for c in missed.split(",") if c],
 }
+if history: meta["history"] = history
 json.dump(meta, open(dst + "/meta.json", "w"), indent=1)
 print("kept", dst)
